@@ -351,6 +351,8 @@ class CallMixin:
         if len(self.frames) > self.cfg.max_depth:
             raise AnalysisError("inlining depth exceeded at %s calling %s" % (self.here(node), f.qual))
         env = self.bind_params(f, selfv, args, kwargs, node)
+        if self.can_compose(f, closure):
+            return self.call_composed(f, env, selfv, node, f.cls or getattr(f, "owner_cls", None))
         fr = Frame(f, env, selfv, f.cls or getattr(f, "owner_cls", None), f.module)
         if closure is not None:
             fr.closure_env = closure.env
@@ -551,6 +553,9 @@ class CallMixin:
         return V(("lres", member, rt, argt, self.fresh(node)), tys, dep)
 
     def would_catch(self, cls):
+        for c in self.outer_catch:
+            if c == "*" or self.exc_is(cls, c):
+                return True
         for fr in reversed(self.frames):
             for caught in reversed(fr.try_catch):
                 for c in caught:
